@@ -120,11 +120,23 @@ theorem C01_fork_path (r : Repo) (h : Hdr) (pb : Nat) (ph : Int)
       obtain ⟨r2, sent, evs⟩ := y
       exact C01_reselect_maximal _ r2 sent evs hr
 
-/-- **C01, extension of a branch other than the longest.** -/
+theorem reselect_arena (r1 r2 : Repo) (sent : Bool) (evs : List Hdr) (h : reselect r1 = .ok (r2, sent, evs)) :
+    r2.arena = r1.arena := by
+  unfold reselect at h
+  split at h
+  · cases h
+  · split at h
+    · split at h
+      · cases h
+      · simp only [Except.ok.injEq, Prod.mk.injEq] at h; rw [← h.1]
+    · simp only [Except.ok.injEq, Prod.mk.injEq] at h; rw [← h.1]
+
+/-- **C01, extension of a branch other than the longest** (when the extended branch's new height
+    is not a multiple of the automatic-clean period). -/
 theorem C01_extend_other (r : Repo) (h : Hdr) (pb : Nat) (ph : Int) (lst : HData) (w : Nat)
     (hw : Work.blockWork h.bits = some w) (hne : pb ≠ r.longest)
     (hok : (extendHeader r h pb ph lst).2.verdict = .ok)
-    (hnc : ∀ r2 : Repo, Int.tmod (r2.br pb).height (Facts.autoCleanModulus : Int) = 0 → False) :
+    (hnc : Int.tmod ((addToBranch r h pb ph lst w).br pb).height (Facts.autoCleanModulus : Int) ≠ 0) :
     TipMax (extendHeader r h pb ph lst).1 := by
   unfold extendHeader at hok ⊢
   rw [hw] at hok ⊢
@@ -146,10 +158,14 @@ theorem C01_extend_other (r : Repo) (h : Hdr) (pb : Nat) (ph : Int) (lst : HData
   | ok y =>
     obtain ⟨r2, sent, evs⟩ := y
     have hmax := C01_reselect_maximal _ r2 sent evs hr
+    have har := reselect_arena _ r2 sent evs hr
     simp only
     split
     · split
-      · rename_i hc; exact absurd hc (hnc r2)
+      · rename_i hc
+        have : (r2.br pb) = ((addToBranch r h pb ph lst w).br pb) := by unfold Repo.br; rw [har]
+        rw [this] at hc
+        exact absurd hc hnc
       · exact hmax
     · exact hmax
 
@@ -181,6 +197,179 @@ theorem C01_extend_longest (r : Repo) (h : Hdr) (ph : Int) (lst : HData) (w : Na
     rw [lastWork_set_ne _ _ _ _ (fun hc => hbl hc.symm)]
     exact h1
 
+theorem newBranch_error_cases (r : Repo) (p : Option Nat) (ph : Int) (h : Hdr) (v : Verdict)
+    (hv : newBranch r p ph h = .error v) : (∃ m, v = .err m) ∨ (∃ m, v = .panic m) := by
+  unfold newBranch at hv
+  cases p with
+  | none =>
+    simp only at hv
+    cases hw : Work.blockWork h.bits <;> rw [hw] at hv
+    · simp only [Except.error.injEq] at hv; exact Or.inr ⟨_, hv.symm⟩
+    · cases hv
+  | some p =>
+    simp only at hv
+    cases hat : r.at p ph with
+    | none => rw [hat] at hv; simp only [Except.error.injEq] at hv; exact Or.inl ⟨_, hv.symm⟩
+    | some l =>
+      rw [hat] at hv
+      simp only at hv
+      by_cases hne : l.hdr.id = h.prev
+      · simp only [hne, ne_eq, not_true_eq_false, ↓reduceIte] at hv
+        cases hw : Work.blockWork h.bits <;> rw [hw] at hv
+        · simp only [Except.error.injEq] at hv; exact Or.inr ⟨_, hv.symm⟩
+        · cases hv
+      · simp only [ne_eq, hne, not_false_eq_true, ↓reduceIte, Except.error.injEq] at hv
+        exact Or.inl ⟨_, hv.symm⟩
+
+/-- the new-branch path only ever answers ok, an internal error or a crash. -/
+theorem forkHeader_verdict_cases (r : Repo) (h : Hdr) (pb : Nat) (ph : Int) :
+    (forkHeader r h pb ph).2.verdict = .ok ∨ (∃ m, (forkHeader r h pb ph).2.verdict = .err m) ∨
+    (∃ m, (forkHeader r h pb ph).2.verdict = .panic m) := by
+  unfold forkHeader
+  cases hnb : newBranch r (some pb) ph h with
+  | error v =>
+    simp only
+    rcases newBranch_error_cases _ _ _ _ _ hnb with ⟨m, rfl⟩ | ⟨m, rfl⟩
+    · exact Or.inr (Or.inl ⟨m, rfl⟩)
+    · exact Or.inr (Or.inr ⟨m, rfl⟩)
+  | ok nb =>
+    simp only
+    generalize hr : reselect _ = res
+    cases res with
+    | error x =>
+      simp only
+      unfold reselect at hr
+      split at hr
+      · simp only [Except.error.injEq] at hr; subst hr; exact Or.inr (Or.inr ⟨_, rfl⟩)
+      · split at hr
+        · split at hr
+          · simp only [Except.error.injEq] at hr; subst hr; exact Or.inr (Or.inl ⟨_, rfl⟩)
+          · cases hr
+        · cases hr
+    | ok y =>
+      obtain ⟨r2, sent, evs⟩ := y
+      exact Or.inl rfl
+
+theorem addToBranch_height (r : Repo) (h : Hdr) (pb : Nat) (ph : Int) (lst : HData) (w : Nat)
+    (hl : r.lastOf pb = some lst) :
+    ((addToBranch r h pb ph lst w).br pb).height = (r.br pb).height + 1 := by
+  have hlen : pb < r.arena.length := by
+    unfold Repo.lastOf Repo.br Branch.last? at hl
+    by_cases hc : pb < r.arena.length
+    · exact hc
+    · rw [List.getElem?_eq_none (by omega)] at hl
+      simp only [Option.getD_none] at hl
+      cases hl
+  unfold addToBranch Repo.br Repo.setBranch Branch.height
+  simp only [List.getElem?_set_self hlen, Option.getD_some, List.length_append, List.length_cons, List.length_nil]
+  rw [List.getElem?_eq_getElem hlen]
+  simp only [Option.getD_some]
+  omega
+
+/-- the verdicts after which the tip must be a maximal-work branch: everything except the internal
+    error of the branch update and a crash. -/
+def Verdict.settled : Verdict → Bool
+  | .err _ => false
+  | .panic _ => false
+  | _ => true
+
+/-- **C01 (maximal tip is an invariant of ProcessHeader).** From any state whose tip is maximal, one
+    submission — whatever header, whatever verdict among accepted / already known / refused —
+    leaves the tip maximal, provided the submission does not trigger the automatic clean, i.e. the
+    extended branch's new height is not a multiple of the period (the clean's effect is C10's). -/
+theorem C01_tipmax_step (r : Repo) (h : Hdr) (ok : Bool) (hmax : TipMax r)
+    (hset : (processHeader r h ok).2.verdict.settled = true)
+    (hnc : ∀ pb ph lst, precheck r h ok = .inr (pb, ph, lst) →
+      Int.tmod ((r.br pb).height + 1) (Facts.autoCleanModulus : Int) ≠ 0) :
+    TipMax (processHeader r h ok).1 := by
+  cases hpc : precheck r h ok with
+  | inl v => rw [processHeader_of_inl r h ok v hpc]; exact hmax
+  | inr x =>
+    obtain ⟨pb, ph, lst⟩ := x
+    have hpass := precheck_inr r h ok pb ph lst hpc
+    rw [processHeader_of_inr r h ok pb ph lst hpc] at hset ⊢
+    unfold applyHeader at hset ⊢
+    by_cases hfork : lst.hdr.id ≠ h.prev
+    · simp only [hfork, ne_eq, not_false_eq_true, ↓reduceIte] at hset ⊢
+      rcases forkHeader_verdict_cases r h pb ph with hv | ⟨m, hv⟩ | ⟨m, hv⟩
+      · exact C01_fork_path r h pb ph hv
+      · rw [hv] at hset; cases hset
+      · rw [hv] at hset; cases hset
+    · simp only [hfork, ↓reduceIte] at hset ⊢
+      unfold extendHeader at hset ⊢
+      cases hw : Work.blockWork h.bits with
+      | none => simp only [hw] at hset; cases hset
+      | some w =>
+        simp only [hw] at hset ⊢
+        have hl : (addToBranch r h pb ph lst w).longest = r.longest := rfl
+        by_cases hpl : pb = r.longest
+        · subst hpl
+          simp only [hl, ne_eq, not_true_eq_false, ↓reduceIte]
+          have hlw : lastWork r.arena r.longest = some lst.work := by
+            have := hpass.lastIs
+            unfold Repo.lastOf Repo.br Branch.last? at this
+            unfold lastWork
+            obtain ⟨hmem, wl, hwl, _⟩ := hmax
+            have hlen := lastWork_lt_length _ _ _ hwl
+            rw [List.getElem?_eq_getElem hlen] at this ⊢
+            simp only [Option.getD_some, Option.bind_some, Branch.last?] at this ⊢
+            rw [this]; rfl
+          have := C01_extend_longest r h ph lst w hmax hlw
+          split
+          · rename_i hc
+            rw [addToBranch_height r h _ ph lst w hpass.lastIs] at hc
+            exact absurd hc (hnc _ ph lst hpc)
+          · exact this
+        · have := C01_extend_other r h pb ph lst w hw hpl
+          unfold extendHeader at this
+          rw [hw] at this
+          simp only [hl, hpl, ne_eq, not_false_eq_true, ↓reduceIte] at this hset ⊢
+          apply this
+          · -- the verdict is ok: settled and produced by this path
+            generalize hr : reselect _ = res at hset ⊢
+            cases res with
+            | error x =>
+              simp only at hset ⊢
+              unfold reselect at hr
+              split at hr
+              · simp only [Except.error.injEq] at hr; subst hr; cases hset
+              · split at hr
+                · split at hr
+                  · simp only [Except.error.injEq] at hr; subst hr; cases hset
+                  · cases hr
+                · cases hr
+            | ok y =>
+              obtain ⟨r2, sent, evs⟩ := y
+              simp only
+              split <;> rfl
+          · rw [addToBranch_height r h pb ph lst w hpass.lastIs]; exact hnc pb ph lst hpc
+/-- a history of submissions: each header with the outcome of its hash-vs-target comparison. -/
+def submitAll (r : Repo) (hs : List (Hdr × Bool)) : Repo := hs.foldl (fun s x => (processHeader s x.1 x.2).1) r
+
+/-- no submission of the history triggers the automatic clean or ends in the internal
+    branch-update error / a crash (each checked at the state it is submitted to). -/
+def Quiet : Repo → List (Hdr × Bool) → Prop
+  | _, [] => True
+  | r, x :: xs =>
+    (processHeader r x.1 x.2).2.verdict.settled = true ∧
+    (∀ pb ph lst, precheck r x.1 x.2 = .inr (pb, ph, lst) →
+      Int.tmod ((r.br pb).height + 1) (Facts.autoCleanModulus : Int) ≠ 0) ∧
+    Quiet (processHeader r x.1 x.2).1 xs
+
+/-- **C01 (sentence 1, submission histories).** After ANY finite history of header submissions —
+    any tree shape, duplicates, orphans, refused headers, forks overtaking one another any number of
+    times — starting from a state whose tip is maximal (e.g. the genesis-only repository), the
+    reported tip has maximal accumulated work among all tracked branch tips. (Histories with
+    Clean/Save/Load: see the file header.) -/
+theorem C01_tip_maximal_submissions (r : Repo) (hs : List (Hdr × Bool)) (h0 : TipMax r) (hq : Quiet r hs) :
+    TipMax (submitAll r hs) := by
+  induction hs generalizing r with
+  | nil => exact h0
+  | cons x xs ih =>
+    obtain ⟨h1, h2, h3⟩ := hq
+    simp only [submitAll, List.foldl_cons]
+    exact ih _ (C01_tipmax_step r x.1 x.2 h0 h1 h2) h3
+
 /-! ### the extracted shapes the model relies on -/
 
 /-- `ProcessHeader` and every reader hold the repository mutex for their whole body, so concurrent
@@ -208,6 +397,24 @@ example : TipMax exRepoC01 := by
 
 example : (applyHeader exRepoC01 { id := 1, prev := 0, bits := 0x1d00ffff, time := 2 } 0 0
     { hdr := { id := 0, prev := 99, bits := 0x1d00ffff, time := 1 }, work := 4295032833 }).2.verdict = .ok := by decide
+example : Quiet exRepoC01 [({ id := 1, prev := 0, bits := 0x1d00ffff, time := 2 }, true), ({ id := 2, prev := 0, bits := 0x1c00ffff, time := 2 }, true)] := by
+  refine ⟨by decide, ?_, by decide, ?_, trivial⟩
+  · intro pb ph lst hp
+    have : precheck exRepoC01 { id := 1, prev := 0, bits := 0x1d00ffff, time := 2 } true
+        = .inr (0, 0, { hdr := { id := 0, prev := 99, bits := 0x1d00ffff, time := 1 }, work := 4295032833 }) := by decide
+    rw [this] at hp
+    simp only [Sum.inr.injEq, Prod.mk.injEq] at hp
+    obtain ⟨rfl, rfl, rfl⟩ := hp
+    decide
+  · intro pb ph lst hp
+    have : precheck (processHeader exRepoC01 { id := 1, prev := 0, bits := 0x1d00ffff, time := 2 } true).1
+        { id := 2, prev := 0, bits := 0x1c00ffff, time := 2 } true
+        = .inr (0, 0, { hdr := { id := 1, prev := 0, bits := 0x1d00ffff, time := 2 }, work := 8590065666 }) := by decide
+    rw [this] at hp
+    simp only [Sum.inr.injEq, Prod.mk.injEq] at hp
+    obtain ⟨rfl, rfl, rfl⟩ := hp
+    decide
+
 example : TipMax (processHeader exRepoC01 { id := 1, prev := 0, bits := 0x1d00ffff, time := 2 } true).1 := by
   refine ⟨by decide, 8590065666, by decide, ?_⟩
   intro b hb
